@@ -347,6 +347,12 @@ func mapKey(a AV) (string, bool) {
 }
 
 // NilV is the nil value of a map/slice/pointer/interface type.
+// ArrFieldV stands, in the field vector of a struct object, for a field that is a byte array:
+// the array lives in an object of its own, which is what the field's address points to.
+type ArrFieldV struct{ O *Obj }
+
+func (a ArrFieldV) String() string { return fmt.Sprintf("array-field@obj%d", a.O.ID) }
+
 type NilV struct{ T string }
 
 func (n NilV) String() string { return "nil" }
@@ -442,6 +448,7 @@ const (
 // Obj is an abstract heap/stack object (one per allocation site and calling context).
 type Obj struct {
 	Struct bool // (okVec) the elements are the fields of a struct
+	Grown  bool // (okVec) a slice grown by append from an empty one: exactly the elements appended so far
 	ID     int
 	Kind   ObjKind
 	Site   ssa.Instruction
